@@ -477,7 +477,10 @@ impl<'a> Runner<'a> {
                                             );
                                         }
                                         self.queue.remove(pos);
-                                        with(|w| w.mark_yielded(child));
+                                        with(|w| {
+                                            w.mark_yielded(child);
+                                            w.adapter_yielded += 1;
+                                        });
                                     }
                                 }
                             }
@@ -1639,7 +1642,7 @@ impl<'a> Runner<'a> {
     }
 
     /// C14 phase oracle.
-    fn freeze(&mut self) {
+    fn freeze(&mut self, fresh: bool) {
         if self.dead || self.relaxed || self.subj.is_none() || (self.done && self.class == Class::Join) {
             return;
         }
@@ -1663,7 +1666,7 @@ impl<'a> Runner<'a> {
         let mut total = 0u64;
         while total < relaxed + h + 8 {
             total += 1;
-            match self.poll_once(false) {
+            match self.poll_once(fresh) {
                 Last::Pending => {
                     pendings += 1;
                     if !F.with(|f| f.task_woken.get()) && F.with(|f| f.task_wakes_in_poll.get()) == 0 {
@@ -1910,7 +1913,8 @@ impl<'a> Runner<'a> {
             Op::Relocate => self.relocate(),
             Op::Cancel => self.cancel(),
             Op::PollAfterReady => self.poll_after_ready(),
-            Op::Freeze => self.freeze(),
+            Op::Freeze => self.freeze(false),
+            Op::FreezeFresh => self.freeze(true),
             Op::Quiesce => self.quiesce(),
         }
     }
@@ -2112,6 +2116,7 @@ fn run_inner(cfg: &Config, trace: &[Op]) -> RunResult {
         w.nd_children = cfg.shape & 1 != 0;
         w.raw_outputs = cfg.shape & 2 != 0 && cfg.shape & 4 == 0 && cfg.subject != SubjectKind::FEC;
         w.inexact_iter = cfg.inexact_iter;
+        w.ordered_adapter = matches!(cfg.subject, SubjectKind::BO | SubjectKind::TBO);
         w.src_hints = cfg.src_hints;
         w.limit = cfg.cap;
         w.up.script = cfg.upstream.clone();
